@@ -91,6 +91,13 @@ def run_vh(ctx, programs, cfg=None, sequential=False, sanity=True, dump=False, t
             out[p["id"]] = {"id": p["id"], "diags": [], "fail": "harness process died: rc=%s %s" % (r.returncode, r.stderr[-1500:])}
             return out
         missing = [p for p in programs if p["id"] not in out]
+        m = re.search(r"^(fatal error: .*|panic: .*)$", r.stderr, re.M)
+        if m and len(missing) > 50:
+            # the Go runtime killed the harness process inside the code under test (e.g. concurrent map writes between passes):
+            # attribute it to the batch; the caller decides by re-running the batch
+            for p in missing:
+                out[p["id"]] = {"id": p["id"], "diags": [], "fail": "PROCESS DIED while analysing the batch concurrently: %s" % m.group(1), "batch_crash": True}
+            return out
         if len(missing) > 200:
             raise vlib.ToolError("vh run failed on %d of %d programs: %s" % (len(missing), len(programs), r.stderr[-1500:]))
         for p in missing:
